@@ -65,6 +65,17 @@ type Blk struct {
 	// Wrap (HTML, EPUB): the table stands alone inside a wrapper - 1: <div class="table-responsive">, 2: the same
 	// with an inline caption in front (<span>, empty), 3: <figure>, 4: <section><div>
 	Wrap int `json:"wrap,omitempty"`
+	// How (docx, odt headings): how the heading states its level (wpmodel.How*; "" = the built-in style)
+	How string `json:"how,omitempty"`
+	// Caption (HTML, EPUB tables): text of a <caption>; body text like any other
+	Caption string `json:"caption,omitempty"`
+	// SpanFirst (HTML, EPUB tables): the first row is one cell with colspan = number of columns (Grid[0][1:] are empty)
+	SpanFirst bool `json:"span_first,omitempty"`
+	// Merge (xlsx tables): one merged region {r1,c1,r2,c2} of the grid; the cells it covers besides its root are empty
+	Merge []int `json:"merge,omitempty"`
+	// Bare (HTML, EPUB paragraphs): 1 = the text stands directly in its container, without <p>; 2 = inside a <span>;
+	// 3 = partly inside an <a>. The container is <body>, or the <div> around everything when Case.BodyDiv is set
+	Bare int `json:"bare,omitempty"`
 }
 
 type Opts struct {
@@ -78,6 +89,8 @@ type Case struct {
 	Target string `json:"target"` // modeltable | rag | docx | odt | xlsx | pptx | html
 	Blocks []Blk  `json:"blocks"`
 	Opts   Opts   `json:"opts"`
+	// BodyDiv (HTML): all blocks stand inside one <div> (1) or <section><div> (2)
+	BodyDiv int `json:"body_div,omitempty"`
 }
 
 func (o Opts) rag() rag.MarkdownOptions {
@@ -180,7 +193,7 @@ func wpDoc(c Case) wpmodel.Doc {
 	for bi, b := range c.Blocks {
 		switch b.Kind {
 		case "heading":
-			d.Blocks = append(d.Blocks, wpmodel.Block{Kind: wpmodel.BHeading, Level: b.Level, How: wpmodel.HowBuiltin, Runs: wpPara(b.Text)})
+			d.Blocks = append(d.Blocks, wpmodel.Block{Kind: wpmodel.BHeading, Level: b.Level, How: howOf(b), Runs: wpPara(b.Text)})
 		case "para":
 			d.Blocks = append(d.Blocks, wpmodel.Block{Kind: wpmodel.BPara, Runs: wpPara(b.Text)})
 		case "item":
@@ -198,8 +211,17 @@ func wpDoc(c Case) wpmodel.Doc {
 	return d
 }
 
+func howOf(b Blk) string {
+	if b.How == "" {
+		return wpmodel.HowBuiltin
+	}
+	return b.How
+}
+
 func htmlOf(c Case) string {
-	return "<!DOCTYPE html>\n<html><head><title>Title of the document</title></head><body>\n" + htmlBody(c.Blocks) + "</body></html>\n"
+	open := []string{"", "<div class=\"content\">", "<section><div>"}[c.BodyDiv]
+	end := []string{"", "</div>", "</div></section>"}[c.BodyDiv]
+	return "<!DOCTYPE html>\n<html><head><title>Title of the document</title></head><body>\n" + open + htmlBody(c.Blocks) + end + "</body></html>\n"
 }
 
 // htmlBody writes blocks as flow content that is well-formed both as HTML and as XHTML.
@@ -225,7 +247,17 @@ func htmlBody(blocks []Blk) string {
 		case "heading":
 			fmt.Fprintf(&b, "<h%d>%s</h%d>\n", blk.Level, esc(blk.Text), blk.Level)
 		case "para":
-			fmt.Fprintf(&b, "<p>%s</p>\n", esc(blk.Text))
+			switch blk.Bare {
+			case 1:
+				fmt.Fprintf(&b, "%s\n", esc(blk.Text))
+			case 2:
+				fmt.Fprintf(&b, "<span class=\"lead\">%s</span>\n", esc(blk.Text))
+			case 3:
+				i := strings.Index(blk.Text, " ")
+				fmt.Fprintf(&b, "<a href=\"#x\">%s</a>%s\n", esc(blk.Text[:i]), esc(blk.Text[i:]))
+			default:
+				fmt.Fprintf(&b, "<p>%s</p>\n", esc(blk.Text))
+			}
 		case "item":
 			want := blk.Level + 1
 			switch {
@@ -258,12 +290,21 @@ func htmlBody(blocks []Blk) string {
 		case "table":
 			b.WriteString([]string{"", `<div class="table-responsive">`, `<div class="table-responsive"><span class="cap"></span>`, "<figure>", "<section><div>"}[blk.Wrap])
 			b.WriteString("<table>\n")
+			if blk.Caption != "" {
+				fmt.Fprintf(&b, "<caption>%s</caption>\n", esc(blk.Caption))
+			}
 			for r, row := range blk.Grid {
 				b.WriteString("<tr>")
-				for _, txt := range row {
+				for cc, txt := range row {
 					tag := "td"
 					if r == 0 {
 						tag = "th"
+					}
+					if r == 0 && blk.SpanFirst {
+						if cc == 0 {
+							fmt.Fprintf(&b, "<%s colspan=\"%d\">%s</%s>", tag, len(row), esc(txt), tag)
+						}
+						continue
 					}
 					fmt.Fprintf(&b, "<%s>%s</%s>", tag, esc(txt), tag)
 				}
@@ -377,6 +418,9 @@ func render(c Case) (string, error) {
 						sh.Cells = append(sh.Cells, xlsxw.Cell{Row: r, Col: cc, Kind: xlsxw.Inline, Text: txt})
 					}
 				}
+			}
+			if len(b.Merge) == 4 {
+				sh.Merges = append(sh.Merges, xlsxw.Merge{R1: b.Merge[0], C1: b.Merge[1], R2: b.Merge[2], C2: b.Merge[3]})
 			}
 			wb.Sheets = append(wb.Sheets, sh)
 		}
@@ -627,7 +671,10 @@ func checkCase(c Case) error {
 	flat := norm(md)
 	for _, b := range c.Blocks {
 		if b.Kind == "para" && !strings.Contains(flat, norm(b.Text)) {
-			return fmt.Errorf("%s: paragraph text %q missing\n%s", c.Target, b.Text, show())
+			return fmt.Errorf("%s: paragraph text %q missing (bare=%d, body wrapper %d)\n%s", c.Target, b.Text, b.Bare, c.BodyDiv, show())
+		}
+		if b.Kind == "table" && b.Caption != "" && !strings.Contains(flat, norm(b.Caption)) {
+			return fmt.Errorf("%s: the text %q of a table caption is missing\n%s", c.Target, b.Caption, show())
 		}
 	}
 	return nil
@@ -700,10 +747,21 @@ func genCase(t *rapid.T) Case {
 					txt = tok() + " " + tok()
 				}
 			}
-			c.Blocks = append(c.Blocks, Blk{Kind: "heading", Level: lvl, Text: txt})
+			hb := Blk{Kind: "heading", Level: lvl, Text: txt}
+			if (c.Target == "docx" || c.Target == "odt") && rapid.Bool().Draw(t, "headingHow") {
+				hb.How = rapid.SampledFrom([]string{wpmodel.HowLocalized, wpmodel.HowCustom, wpmodel.HowBased, wpmodel.HowBased2, wpmodel.HowDirect, wpmodel.HowOverride}).Draw(t, "how")
+			}
+			if (c.Target == "html" || c.Target == "epub") && txt == hb.Text && strings.Count(txt, " ") == 1 && rapid.IntRange(0, 3).Draw(t, "headingBreak") == 0 {
+				hb.Text = strings.Replace(txt, " ", "\n", 1) // a line break inside the heading
+			}
+			c.Blocks = append(c.Blocks, hb)
 			depth = -1
 		case "para":
-			c.Blocks = append(c.Blocks, Blk{Kind: "para", Text: tok() + " " + tok() + " " + tok()})
+			pb := Blk{Kind: "para", Text: tok() + " " + tok() + " " + tok()}
+			if c.Target == "html" && rapid.IntRange(0, 2).Draw(t, "bare") == 0 {
+				pb.Bare = rapid.IntRange(1, 3).Draw(t, "bareKind")
+			}
+			c.Blocks = append(c.Blocks, pb)
 			depth = -1
 		case "item":
 			d := 0
@@ -768,12 +826,46 @@ func genCase(t *rapid.T) Case {
 			if (c.Target == "html" || c.Target == "epub") && rapid.Bool().Draw(t, "wrappedTable") {
 				blk.Wrap = rapid.IntRange(1, 4).Draw(t, "wrapper")
 			}
+			if c.Target == "html" || c.Target == "epub" {
+				if rapid.IntRange(0, 3).Draw(t, "caption") == 0 {
+					blk.Caption = tok() + " " + tok()
+				}
+				if cols >= 2 && rapid.IntRange(0, 3).Draw(t, "spanFirst") == 0 {
+					blk.SpanFirst = true
+					for cc := 1; cc < cols; cc++ {
+						g[0][cc] = ""
+					}
+				}
+			}
+			if c.Target == "xlsx" && rows >= 3 && rapid.IntRange(0, 1).Draw(t, "merge") == 0 {
+				// a merged region below the header row; what it covers besides its root is empty
+				r1 := rapid.IntRange(1, rows-2).Draw(t, "mr1")
+				c1 := rapid.IntRange(0, cols-1).Draw(t, "mc1")
+				r2 := rapid.IntRange(r1, rows-1).Draw(t, "mr2")
+				c2 := rapid.IntRange(c1, minInt(c1+1, cols-1)).Draw(t, "mc2")
+				if (r2 > r1 || c2 > c1) && !(r2 == rows-1 && c2 == cols-1) {
+					blk.Merge = []int{r1, c1, r2, c2}
+					for r := r1; r <= r2; r++ {
+						for cc := c1; cc <= c2; cc++ {
+							if r != r1 || cc != c1 {
+								g[r][cc] = ""
+							}
+						}
+					}
+					if strings.TrimSpace(g[r1][c1]) == "" {
+						g[r1][c1] = tok()
+					}
+				}
+			}
 			c.Blocks = append(c.Blocks, blk)
 			depth = -1
 		}
 	}
 	if c.Target == "modeltable" || c.Target == "xlsx" {
 		c.Opts = Opts{Max: 6}
+	}
+	if c.Target == "html" && rapid.IntRange(0, 2).Draw(t, "bodyDiv") == 0 {
+		c.BodyDiv = rapid.IntRange(1, 2).Draw(t, "bodyDivKind")
 	}
 	return c
 }
@@ -798,6 +890,24 @@ func meta(c Case) vr.Meta {
 			titles[b.Text] = true
 		}
 		labels = append(labels, c.Target+":"+b.Kind)
+		if b.How != "" {
+			labels = append(labels, "heading-how:"+b.How)
+		}
+		if b.Kind == "heading" && strings.Contains(b.Text, "\n") {
+			labels = append(labels, "heading-with-line-break")
+		}
+		if b.Caption != "" {
+			labels = append(labels, "table-caption")
+		}
+		if b.SpanFirst {
+			labels = append(labels, "first-row-colspan")
+		}
+		if b.Merge != nil {
+			labels = append(labels, "xlsx-merged-region")
+		}
+		if b.Bare > 0 {
+			labels = append(labels, fmt.Sprintf("bare-text:%d", b.Bare))
+		}
 		switch b.Kind {
 		case "table":
 			for _, row := range b.Grid {
